@@ -90,6 +90,7 @@ GROUPS = [
  dict(BASE, name="thread_start", entry="h_thread_start", functions=[F + "sexp_thread_start"], instances=inst(sorted(set(NO3)))),
  dict(BASE, name="thread_sleep", entry="h_thread_sleep", functions=[F + "sexp_thread_sleep", F + "sexp_insert_timed"], instances=inst(SHAPES)),
  dict(BASE, name="thread_join", entry="h_thread_join", functions=[F + "sexp_thread_join", F + "sexp_insert_timed"], instances=inst(sorted(set(NO3)))),
+ dict(BASE, name="thread_terminate", entry="h_thread_terminate", functions=[F + "sexp_thread_terminate", F + "sexp_delete_list", F + "sexp_thread_start"], instances=inst([(9, 9), (1, 9), (3, 9), (13, 9), (31, 2), (9, 3), (1, 3), (12, 3), (9, 32)])),
  dict(BASE, replay=replay_sched, name="scheduler", entry="h_scheduler", functions=[F + "sexp_scheduler", F + "sexp_insert_timed", F + "sexp_delete_list"], instances=sched_inst()),
 ]
 META = {
@@ -98,6 +99,6 @@ META = {
  "trusted_base": ["CBMC 6.11.0 (MiniSat)", "harness/prelude.h substitutions incl. pointer tests on registered objects (VERIF_KINDFOLD)"],
  "assumptions": [],
  "not_covered": ["the composition: that the Scheme retry loops of lib/srfi/18/interface.scm around the primitives (mutex-lock!, mutex-unlock! with condition variable, thread-join!) terminate and re-check under every interleaving (Scheme code; no verifier)",
-                 "the fuel countdown and context switch in the VM loop (vm.c:1103-1152) and pre-emption points", "signal handling and threads blocked on file descriptors (poll section of the scheduler), sexp_thread_terminate, thread-local parameters, dynamic-wind",
+                 "the fuel countdown and context switch in the VM loop (vm.c:1103-1152) and pre-emption points", "signal handling and threads blocked on file descriptors (poll section of the scheduler), termination of child contexts, thread-local parameters, dynamic-wind",
                  "the 10 ms nap / busy-wait section of the scheduler beyond membership of the lists (which thread is chosen when every thread waits)", "more than 4 threads"],
 }
